@@ -597,7 +597,7 @@ func (in *c07Inst) snapshot() {
 //   - forgetting when neither dialer knows a protocol of the universe;
 //   - learning a protocol nobody handles (the open fails, nothing is recorded) or that both dialers already
 //     know and the listener handles (optimistic open, nothing is recorded).
-func (in *c07Inst) enabled(alphabet []c07Op) []c07Op {
+func (in *c07Inst) enabled(alphabet []c07Op) []int {
 	if in.broken != "" {
 		return nil
 	}
@@ -616,8 +616,8 @@ func (in *c07Inst) enabled(alphabet []c07Op) []c07Op {
 			break
 		}
 	}
-	var out []c07Op
-	for _, o := range alphabet {
+	var out []int
+	for oi, o := range alphabet {
 		switch o.Kind {
 		case c07OpSetExact, c07OpSetMatch:
 			kind := byte(c07Exact)
@@ -651,7 +651,7 @@ func (in *c07Inst) enabled(alphabet []c07Op) []c07Op {
 				continue
 			}
 		}
-		out = append(out, o)
+		out = append(out, oi)
 	}
 	return out
 }
